@@ -78,6 +78,14 @@ fn main() -> ExitCode {
         true,
     );
 
+    #[cfg(feature = "verif")]
+    if let Some(path) = std::env::var_os("OXIPNG_VERIF_DUMP") {
+        use std::io::Write;
+        if let Ok(mut f) = std::fs::OpenOptions::new().append(true).open(path) {
+            let _ = writeln!(f, "files {files:?}");
+        }
+    }
+
     let summary = files
         .into_par_iter()
         .map(|(input, output)| {
